@@ -8,7 +8,7 @@ TIME_FNS = 'date_from_rfc2822,date_from_rfc3339,date_to_rfc2822,date_to_rfc3339,
 
 PROPS = {
  'C03': dict(
-    srcgen={'SrcOrder': 'SlacProps.C13Source', 'SrcInterp': 'SlacProps.C04Source'},
+    srcgen={'SrcOrder': 'SlacProps.C13Source', 'SrcInterp': 'SlacProps.C04Source'}, srcspec=True,
     modules=['SlacProps.C03', 'SlacProps.C03Float', 'SlacProps.C03Source'], translate=True,
     streams=[
         dict(name='evaltable', n=n(0, 0), view='result'),
@@ -130,6 +130,9 @@ PROPS = {
         # the deep inputs again in a worker whose address space is limited to 16 MiB: a helper thread with a big stack, or a buffer sized by the
         # nesting depth, is refused by the OS there - compile must still answer with a tree or an error
         dict(name='lowmem:compiledeep', gen='compiledeep', n=n(1500, 20000), model=False, view='class', oracle='none', laws=['no_crash'], rlimit_as_mb=16),
+        # random texts (comma-less lists, unbalanced brackets, ...) in a worker whose stderr is a full device and whose address space is small: a diagnostic
+        # written with eprintln!, a helper thread, a big scratch buffer fail AT THAT POINT - compile must still answer
+        dict(name='hostile:compile', gen='compile', n=n(20000, 400000), model=False, view='class', oracle='none', laws=['no_crash'], rlimit_as_mb=24, stderr_full=True),
     ],
     rule='every run is executed in a worker process: a dead (stack overflow, abort) or hung worker is bisected to the single killing input. '
          'scanfrag/parsekinds exhaustive small scopes; compile: random texts incl. truncations and single-character mutations of valid scripts, unbalanced delimiters, dangling operators, unterminated strings/comments, arbitrary Unicode; '
@@ -236,6 +239,7 @@ PROPS = {
         dict(name='rep', n=n(100, 1500), model=False, oracle='none', laws=['stable'], tz='CET-1CEST,M3.5.0,M10.5.0/3'),
         dict(name='call', n=n(100, 2500), oracle='none', repeat_process=True, tz='CET-1CEST,M3.5.0,M10.5.0/3'),
         dict(name='nd', n=n(20000, 300000), oracle='none', laws=['nd']),
+        dict(name='rexrep', gen='py:regexgen.py valid', n=n(6000, 100000), oracle='none', repeat_process=True, case_timeout=30.0),
         # a zone whose offset is not a whole number of hours (Newfoundland): its switches fall at hh:30 UTC
         dict(name='callnst', gen='call:date_from_rfc3339,date_from_rfc2822,date_to_rfc3339,date_to_rfc2822', n=n(1500, 20000), oracle='none', repeat_process=True, tz='NST3:30NDT,M3.2.0,M11.1.0'),
     ],
